@@ -238,6 +238,29 @@ def r2_operators(ck, F, tag):
                     ck.ok("C19.R2", key, fn=p, detail=show(ret_of(b)))
                 else:
                     ck.bad("C19.R2", key, where(b.raw["sp"]), "eq is %s; expected enc(self) == enc(other)" % show(ret_of(b)), fn=p)
+            # an explicit `ne` must be the negation of `eq` for every pair (the provided one is)
+            pn, bn = body_of(A, B, "PartialEq", "ne")
+            if bn is not None:
+                keyn = pn.replace(M, "")
+                r = ret_of(bn)
+                ok = False
+                if r is not None:
+                    t = r
+                    neg = False
+                    while t[0] == "un" and t[1] == "Not":
+                        neg = not neg
+                        t = t[2]
+                    if t[0] == "bin" and t[1] == "Ne" and not neg:
+                        a, b2 = side(t[2]), side(t[3])
+                        ok = a is not None and b2 is not None and {a, b2} == {(kind[A], 1), (kind[B], 2)}
+                    elif neg and norm_cmp(t) == ("Eq", (kind[B], 2), (kind[A], 1)):
+                        ok = True
+                    elif neg and t[0] == "call" and t[1].endswith("PartialEq::eq") and set(t[2]) == {("arg", 1), ("arg", 2)}:
+                        ok = True
+                if ok:
+                    ck.ok("C19.R2", keyn, fn=pn, detail=show(r))
+                else:
+                    ck.bad("C19.R2", keyn, where(bn.raw["sp"]), "ne is %s; expected enc(self) != enc(other) (the negation of eq for every pair, OFF included)" % (show(r) if r else "path-dependent"), fn=pn)
 
 
 # ------------------------------------------------------------------ R3
@@ -322,7 +345,16 @@ def r3_text(ck, F, tag, enc):
         if top is None:
             return None, {}, {}, []
         got_digits, got_names, other_accept = {}, {}, []
-        for cb in [top] + F.closures_of(top):
+        # helper functions handed to the combinators as function values (`.and_then(level_from_number)`) play the closures' role
+        fn_items = []
+        for x in [top] + F.closures_of(top):
+            for bb, t in x.calls():
+                for a in t["argv"]:
+                    fnp = (a.get("const") or {}).get("fn")
+                    hb = F.body(fnp) if fnp else None
+                    if hb is not None and hb.crate == top.crate and hb.argc == 1 and hb not in fn_items and "into_level" not in fnp:
+                        fn_items.append(hb)
+        for cb in [top] + F.closures_of(top) + fn_items:
             for p in PathEval(cb).run():
                 if p.end != "return":
                     continue
@@ -341,7 +373,9 @@ def r3_text(ck, F, tag, enc):
                 def is_digit_term(t):
                     # the parsed number: the digit closure's parameter, or (in the function itself) the payload of
                     # `s.parse::<usize>()` / `usize::from_str(s)`
-                    if t == ("arg", 2) and cb is not top:
+                    if t == ("arg", 2) and cb is not top and cb not in fn_items:
+                        return True
+                    if t == ("arg", 1) and cb in fn_items:
                         return True
                     txt = show(t)
                     return cb is top and t[0] in ("field", "downcast") and ("from_str(" in txt or "parse(" in txt)
